@@ -35,9 +35,21 @@ structure EarcutInput where
 def earcutStep (acc : EarcutInput) (interior : List Pt) : EarcutInput :=
   ⟨flatInto acc.vertices interior, acc.interiorIndexes ++ [acc.vertices.length / 2]⟩
 
-/-- `polygon_to_earcutr_input` -/
-def polygonToEarcutInput (p : Poly) : EarcutInput :=
+/-- `flat_line_string_coords_2` after the `fix:` (repeated vertices): a coordinate equal to the one pushed
+just before it *for the same ring* is skipped, i.e. every run of equal consecutive coordinates is pushed once. -/
+def dedupRuns : List Pt → List Pt
+  | a :: b :: rest => if a == b then dedupRuns (b :: rest) else a :: dedupRuns (b :: rest)
+  | l => l
+
+/-- the polygon whose rings are what `flat_line_string_coords_2` pushes -/
+def dedupRings (p : Poly) : Poly := ⟨dedupRuns p.ext, p.ints.map dedupRuns⟩
+
+/-- the two loops of `polygon_to_earcutr_input` over rings that are pushed in full -/
+def earcutInputOf (p : Poly) : EarcutInput :=
   p.ints.foldl earcutStep ⟨flatInto [] p.ext, []⟩
+
+/-- `polygon_to_earcutr_input` -/
+def polygonToEarcutInput (p : Poly) : EarcutInput := earcutInputOf (dedupRings p)
 
 /-- `Iter::triangle_index_to_coord` (`none` = index out of bounds, a panic in Rust) -/
 def indexToCoord (vertices : List Rat) (i : Nat) : Option Pt :=
